@@ -169,7 +169,10 @@ def runCase {T G M : Type} (I : TItem T Int G M Int) (io : ItemIO G M)
             let raw := " ".intercalate (ts.map (fun t => shapeRaw (skel t)))
             let view := " ".intercalate (ts.map (fun t => shapeView (prios t) (skel t)))
             let spec := " ".intercalate (ps.map (fun p => shapeView p (cartShape p)))
-            answer3 (v ++ " / " ++ raw) (v ++ " / " ++ view) (m ++ " / " ++ spec)
+            -- a `split_by` predicate that is not prefix-monotone cuts where the *shape* says: the sizes,
+            -- hence the priority lists, are then not fixed by the history (heap order still is: raw)
+            let inDom := runInDomB (G := G) I [] ops
+            answer3 (v ++ " / " ++ raw) (v ++ " / " ++ view) (if inDom then m ++ " / " ++ spec else "any")
         else answer v m
 
 /-- `big` stream: only the element count is modelled. -/
